@@ -11,5 +11,5 @@ CONSTANTS
   Deviations = {"stop_timeout_ok"}
 VIEW view
 INVARIANTS NoViolation CounterExact CounterBounded DrainsToMin RejectAfterStop NoCollateral
-PROPERTIES Monotone CancelledNeverRuns
+PROPERTIES Monotone CancelledNeverRuns NoCollateralDrop
 CHECK_DEADLOCK FALSE
